@@ -20,6 +20,7 @@ import (
 type c05World struct {
 	r     *Rig
 	peers []*RawPeer
+	carry map[int][]string // tags seen on earlier streams of a session (before it reopened its stream)
 }
 
 func c05New(mode string, k int, openStreams bool) (*c05World, error) {
@@ -42,7 +43,7 @@ func c05New(mode string, k int, openStreams bool) (*c05World, error) {
 
 // notes returns the "n" tags of notification frames seen on peer i's stream, in order.
 func (w *c05World) notes(i int) []string {
-	var out []string
+	out := append([]string(nil), w.carry[i]...)
 	for _, f := range w.peers[i].StreamFrames() {
 		var m struct {
 			Method string `json:"method"`
@@ -477,11 +478,12 @@ func (e c05Ev) String() string { return fmt.Sprintf("%s(%d)", e.Op, e.S) }
 
 type c05M struct {
 	Live, Open [3]bool
+	Re         [3]bool // the open stream is a replacement of an earlier one (kept apart in the key: "a replaced stream behaves like a first one" is what is being checked, not assumed)
 	Got        [3][]string
 }
 
 func (m c05M) key() string {
-	return fmt.Sprintf("%v%v", m.Live, m.Open)
+	return fmt.Sprintf("%v%v%v", m.Live, m.Open, m.Re)
 }
 
 func c05Events(m c05M) []c05Ev {
@@ -490,6 +492,9 @@ func c05Events(m c05M) []c05Ev {
 		if m.Live[s] {
 			if m.Open[s] {
 				evs = append(evs, c05Ev{"close", s})
+				if !m.Re[s] {
+					evs = append(evs, c05Ev{"reopen", s})
+				}
 			} else {
 				evs = append(evs, c05Ev{"open", s})
 			}
@@ -567,12 +572,25 @@ func c05Replay(h []c05Ev) (viol []explore.Violation, m c05M, broken string) {
 			case "open":
 				w.peers[ev.S].OpenStream()
 				m.Open[ev.S] = true
+			case "reopen": // a second listening stream while the first is open: the new one takes over
+				seen := w.notes(ev.S)
+				old := w.peers[ev.S].Stream
+				w.peers[ev.S].OpenStream()
+				vsched.Quiesce()
+				if w.carry == nil {
+					w.carry = map[int][]string{}
+				}
+				w.carry[ev.S] = seen
+				m.Re[ev.S] = true
+				if last && old != nil && !old.HandlerDone {
+					viol = append(viol, V("accounting:old-stream-open", "%s -> the replaced stream of session %d is still open", where, ev.S))
+				}
 			case "close":
 				w.peers[ev.S].Stream.CloseFromClient()
-				m.Open[ev.S] = false
+				m.Open[ev.S], m.Re[ev.S] = false, false
 			case "delete":
 				w.peers[ev.S].P.Do("DELETE", w.r.URL, w.sid(ev.S), nil, nil)
-				m.Live[ev.S], m.Open[ev.S] = false, false
+				m.Live[ev.S], m.Open[ev.S], m.Re[ev.S] = false, false, false
 			case "send":
 				err := w.r.Server.SendNotification(w.sid(ev.S), "notifications/message", map[string]interface{}{"tag": tag})
 				if m.Open[ev.S] {
@@ -662,7 +680,7 @@ func init() {
 	c20Extra = append(c20Extra, "c05/notify/ss/pad0", "c05/roots/ss/two-sessions", "c05/roots/ls/two-sessions")
 	RegisterEnum(&Enum{Name: "c05/endings", Doc: "how a server-issued request ends (answer, error answer, ctx cancel, 30 s virtual time-out, stream closed) on Streamable, legacy SSE and stdio servers; nothing stays pending",
 		Count: func(string) int { return 15 }, Eval: c05Endings})
-	RegisterEnum(&Enum{Name: "c05/accounting", Doc: "BFS over {open, close, delete, send, broadcast, filtered(subset)} on 3 sessions with a reference model of who receives what and of the reported counts",
+	RegisterEnum(&Enum{Name: "c05/accounting", Doc: "BFS over {open, reopen, close, delete, send, broadcast, filtered(subset)} on 3 sessions with a reference model of who receives what and of the reported counts",
 		Count: func(string) int { return 1 }, Eval: c05BFS})
 	RegisterCheck("C05", func(c *Ctx) {
 		c.Level = "exploration"
